@@ -1508,6 +1508,15 @@ def check_feed_close(ctx, funcs: typing.Iterable[FuncInfo], rule="PAIR-close"):
         r = ix.resolve(f.module, st.value.func, cls=f.cls, func=f)
         if isinstance(r, ClassInfo) and any(b.split(".")[-1] == "HTMLParser" for c in ix.mro(r) for b in c.ext_bases):
           holders.setdefault(st.targets[0].id, []).append(st)
+    # feed() on a parser that is never bound to a name cannot be followed by close() at all
+    for c in own_nodes(f.node):
+      if isinstance(c, ast.Call) and isinstance(c.func, ast.Attribute) and c.func.attr == "feed" and isinstance(c.func.value, ast.Call):
+        r = ix.resolve(f.module, c.func.value.func, cls=f.cls, func=f)
+        if isinstance(r, ClassInfo) and any(b.split(".")[-1] == "HTMLParser" for k in ix.mro(r) for b in k.ext_bases):
+          n += 1
+          ctx.bad(rule, f"{f.qualname}|{r.name}(...).feed(...) is followed by close()", ctx.where(f.module, c),
+                  f"`{short(c, 50)}` feeds a parser that is not kept, so close() is never called on it: HTMLParser holds back the tail of the text (anything after a trailing `&` or `<`) "
+                  f"until close(), so that text never reaches the handlers and is lost")
     if not holders:
       continue
     ctx.unit(f.module)
